@@ -12,6 +12,13 @@ from . import xl, xlerrors, xlcriteria, func_xltypes
 rand = np.random.rand
 
 
+def _finite(value):
+    # A result too large for a double is #NUM!, not infinity.
+    if np.isinf(value):
+        raise xlerrors.NumExcelError('Result is too large.')
+    return value
+
+
 @xl.register()
 @xl.validate_args
 def ABS(
@@ -35,6 +42,10 @@ def ACOS(
     https://support.office.com/en-us/article/
         acos-function-cb73173f-d089-4582-afa1-76e5524b5d5b
     """
+    if number < -1 or number > 1:
+        raise xlerrors.NumExcelError(f'number {number} must be between '
+                                     f'-1 and 1')
+
     return np.arccos(float(number))
 
 
@@ -196,7 +207,7 @@ def COSH(
     https://support.office.com/en-us/article/
         cosh-function-e460d426-c471-43e8-9540-a57ff3b70555
     """
-    return np.cosh(float(number))
+    return _finite(np.cosh(float(number)))
 
 
 @xl.register()
@@ -242,7 +253,7 @@ def EXP(
     https://support.office.com/en-us/article/
         exp-function-c578f034-2c45-4c37-bc8c-329660a63abe
     """
-    return np.exp(float(number))
+    return _finite(np.exp(float(number)))
 
 
 @xl.register()
@@ -328,6 +339,9 @@ def LN(
     https://support.office.com/en-us/article/
         ln-function-81fe1ed7-dac9-4acd-ba1d-07a142c6118f
     """
+    if number <= 0:
+        raise xlerrors.NumExcelError(f'number {number} must be positive')
+
     return math.log(number)
 
 
@@ -342,6 +356,13 @@ def LOG(
     https://support.office.com/en-us/article/
         log-function-4e82f196-1ca9-4747-8fb0-6c4a3abb3280
     """
+    if float(number) <= 0 or float(base) <= 0:
+        raise xlerrors.NumExcelError(
+            f'number {number} and base {base} must be positive')
+
+    if float(base) == 1:
+        raise xlerrors.DivZeroExcelError()
+
     return math.log(float(number), float(base))
 
 
@@ -355,6 +376,9 @@ def LOG10(
     https://support.office.com/en-us/article/
         log10-function-c75b881b-49dd-44fb-b6f4-37e3486a0211
     """
+    if float(number) <= 0:
+        raise xlerrors.NumExcelError(f'number {number} must be positive')
+
     return np.log10(float(number))
 
 
@@ -369,6 +393,9 @@ def MOD(
     https://support.office.com/en-us/article/
         mod-function-9b6cd169-b6ee-406a-a97b-edf2a9dc24f3
     """
+    if divisor == 0:
+        raise xlerrors.DivZeroExcelError()
+
     return number % divisor
 
 
